@@ -24,6 +24,9 @@ func (e *Engine) nativeOf(v Value) (interface{}, bool) {
 		}
 	case Int:
 		if v.T == nil {
+			if v.W == 64 {
+				return int(signExt(v.V, v.W)), true
+			}
 			return signExt(v.V, v.W), true
 		}
 	case Bool:
